@@ -24,7 +24,7 @@ _DROP_RECV = {('self', '_log'), ('self', '_prof'), ('self', '_rep'),
               ('logger',)}
 
 _PURE_IN_LOGARGS = {'len', 'str', 'repr', 'int', 'float', 'list', 'sorted',
-                    'type', 'id', 'bool', 'dict', 'set', 'tuple'}
+                    'type', 'id', 'bool', 'dict', 'set', 'tuple', 'sum', 'min', 'max'}
 
 
 def pkg_path(rel):
